@@ -37,6 +37,44 @@ Copies   : every identity (<= K peripherals) built by Group(...) and by
            PYTHONHASHSEED values, where it is judged against freshly built
            groups, name strings, a restored dict keyed by groups and a
            restored GroupLibrary.
+
+Fourth-wave families (domains in mc/domains/w4_c19.py):
+Case     : names that differ only in letter case are different names.  A
+           second alphabet - every letter-case variant of C, CO, H as
+           peripherals (8 names), centres {C, c, CO, Co} - goes through the
+           same machinery: every multiset of <= 3 (quick) / <= 4 (thorough)
+           peripherals, every ordering, every run-length spelling, through
+           Group() and Group.parse(); all ordered pairs of identities with
+           <= 2 peripherals; every identity with <= 2 peripherals as a key of
+           a synthetic library file.
+Edits    : every (build a group, edit the object that came back, ordinary
+           construction) history: the first group is every identity of <= 2
+           peripherals over {C, H} x centres {C, N[A]}, built by Group(), by
+           Group.parse() of its canonical / of its descending spelling, or
+           parsed twice (the second result is edited); the edit is one of
+           append, insert in front, pop last, delete first, clear, reverse,
+           sort descending, replace first, extend by two, re-bind .psgs and
+           .csg; the ordinary construction is the same 216-member family that
+           follows a failed call.  The edited object is not judged (the
+           statement is silent); what is built afterwards is.  Runs in child
+           interpreters like the failed-call family, witnesses carry the
+           whole history.
+Library  : histories on ONE library object.  20 identities (<= 2 peripherals
+histories  over {C, H, CO}, centres {C, CO}) with fixed roles: 8 held by
+           library A, 4 by B1, 4 by B2, 4 by nobody; B3 holds one of A's
+           identities with another datum.  Every sequence of <= 3 (quick) /
+           <= 4 (thorough) operations from an alphabet of 12 (lib[...] by
+           Group object / by plain name of a member of A, of B1, of nobody;
+           `name in lib`; iteration; Update(B1), Update(B2), Update(B3)
+           [refused], Update(B3, overwrite=True)) is applied to a fresh A
+           (made by Load of a file with non-canonical spellings, and by the
+           constructor), then EVERY identity of the universe is looked up
+           under six forms of key (scheme-bound object, re-spelt object,
+           name as str / str subclass / numpy.str_, name of the re-spelt
+           object) with lib[...], `in` and .get and compared with a
+           dictionary model of the history.  Observation happens only at the
+           end of a history (every prefix is a history of its own), so the
+           judge's own look-ups are never part of what is judged.
 """
 import collections
 import copy
@@ -51,6 +89,7 @@ import tempfile
 from .. import VERIF
 from ..runner import Result
 from ..domains import w3_c19 as W3
+from ..domains import w4_c19 as W4
 
 LEVEL = 'exploration'
 CENTRES = ['C', 'CO', 'C[d]', 'Pt', 'N[A]']
@@ -60,6 +99,9 @@ PAIRMAX = {'quick': 3, 'thorough': 4}
 AFTER_CENTRES = ['C', 'N[A]', 'Pt']     # ordinary calls that follow a failure
 AFTER_K = 2
 AFTER_SHARDS = 6
+EDIT_SHARDS = 4
+CASE_PAIR_SHARDS = 2
+LH_SHARDS = {'quick': 4, 'thorough': 16}
 PROTOCOLS = [0, 2, pickle.HIGHEST_PROTOCOL]
 READER_SEEDS = ['101', '202', '303']    # two of them, never this process's
 BOUND = {t: 'multisets of <= %d peripherals over %d names x %d centres; all '
@@ -72,13 +114,31 @@ BOUND = {t: 'multisets of <= %d peripherals over %d names x %d centres; all '
             'constructions (identities of <= %d peripherals x %d centres x '
             '{Group(), parse}) as two-call histories; every identity of <= %d '
             'peripherals copied / deep-copied / pickled (protocols 0, 2, %d) in '
-            'process and restored in 2 other processes with other hash seeds'
+            'process and restored in 2 other processes with other hash seeds; '
+            'letter-case alphabet (%d peripherals %s x %d centres %s): '
+            'multisets of <= %d peripherals in all orderings and spellings, '
+            'all ordered pairs of identities with <= %d peripherals, the '
+            'latter as keys of a library file; %d (build, edit the result) '
+            'calls (identities of <= %d peripherals over %s x %d centres x %d '
+            'routes x %d edits) x the same ordinary constructions as '
+            'two-call histories; %d library histories (all sequences of <= '
+            '%d operations from an alphabet of %d on one library object) x '
+            '%d ways of making the library, each followed by look-ups of %d '
+            'identities under 6 forms of key'
             % (KMAX[t], len(PERIPH), len(CENTRES), PAIRMAX[t],
                len(W3.failing_calls()), W3.FAIL_GOOD_MAX,
                len(AFTER_CENTRES) * 2 * sum(
                    len(list(itertools.combinations_with_replacement(PERIPH, k)))
                    for k in range(AFTER_K + 1)),
-               AFTER_K, len(AFTER_CENTRES), KMAX[t], pickle.HIGHEST_PROTOCOL)
+               AFTER_K, len(AFTER_CENTRES), KMAX[t], pickle.HIGHEST_PROTOCOL,
+               len(W4.CASE_PERIPH), '/'.join(W4.CASE_PERIPH),
+               len(W4.CASE_CENTRES), '/'.join(W4.CASE_CENTRES), W4.KCASE[t],
+               W4.CASE_PAIRMAX, len(W4.edit_calls()), W4.MUT_K,
+               '/'.join(W4.MUT_PERIPH), len(W4.MUT_CENTRES),
+               len(W4.MUT_ROUTES), len(W4.MUT_OPS),
+               sum(len(W4.LH_OPS) ** L for L in range(W4.LH_LEN[t] + 1)),
+               W4.LH_LEN[t], len(W4.LH_OPS), len(W4.LH_ROUTES),
+               len(W4.lh_universe()))
          for t in KMAX}
 RULE = ('every (centre, ordering, run-length spelling) over the stated '
         'alphabets is constructed through Group(...) (list, tuple, one-shot iterator, '
@@ -92,14 +152,30 @@ RULE = ('every (centre, ordering, run-length spelling) over the stated '
         '(call with malformed input, then ordinary construction, same '
         'process) is non-trivial when the first call really raised; a copy '
         'is non-trivial when it was restored in a process with another '
-        'string-hash salt')
+        'string-hash salt; the letter-case alphabet goes through the same '
+        'enumeration (a pair is non-trivial when the two identities differ '
+        'in one peripheral or count, which includes differing only in '
+        'letter case); a (build, edit the result, build again) history is '
+        'non-trivial when the edit really changed the first object; a '
+        'library history (operations on one library object, then every '
+        'identity of a 20-member universe looked up under 6 forms of key '
+        'and compared with a dictionary model) is non-trivial when it '
+        'contains an Update')
 ASSUMPTIONS = ['CPython dict/hash semantics', 'PyYAML for the library file',
                'statement is silent about malformed names: not judged '
                '(but what is built AFTER such a call is judged)',
                'numpy.str_ and a do-nothing str subclass stand for "held as '
                'another kind of plain string"',
                'pickle / copy of a Group is a Group (default object protocol); '
-               'the other processes differ in PYTHONHASHSEED only']
+               'the other processes differ in PYTHONHASHSEED only',
+               'an edited Group object itself is not judged (statement '
+               'silent); only what is built after the edit',
+               'library histories: GroupLibrary.Update adds what is new, is '
+               'refused as a whole when its single entry carries another '
+               'datum for a held identity, and replaces it with '
+               'overwrite=True (the merge rule itself is C13\'s subject; '
+               'here only that every form of key reaches the entry the '
+               'dictionary model holds)']
 
 
 def compositions(n):
@@ -154,6 +230,17 @@ def shards(tier, seed):
     for i in range(AFTER_SHARDS):
         out.append(('after-failure', i, AFTER_SHARDS))
     out.append(('copies', None))
+    # fourth wave
+    for c in W4.CASE_CENTRES:
+        for k in range(0, W4.KCASE[tier] + 1):
+            out.append(('spell-case', c, k, None))
+    for i in range(CASE_PAIR_SHARDS):
+        out.append(('pairs-case', i, CASE_PAIR_SHARDS))
+    out.append(('library-case', None))
+    for i in range(EDIT_SHARDS):
+        out.append(('after-edit', i, EDIT_SHARDS))
+    for i in range(LH_SHARDS[tier]):
+        out.append(('library-history', i, LH_SHARDS[tier]))
     return out
 
 
@@ -207,9 +294,12 @@ def _check_one(R, G, centre, ms, seq, text, how, history=None):
                order=list(seq), text=text, how=how)
     prefix = ''
     if history is not None:
-        wit = dict(wit, kind='after-failure', fail=history['fail'],
+        # family: 'after-failure' (third wave) or 'after-edit' (fourth wave:
+        # the first call built a group and edited the object it got back)
+        family = history.get('family', 'after-failure')
+        wit = dict(wit, kind=family, fail=history['fail'],
                    earlier=history.get('earlier'))
-        prefix = 'after-failure:'
+        prefix = family + ':'
     try:
         g0 = G(None, centre, sorted(ms))
         if how == 'ctor':
@@ -232,7 +322,7 @@ def _check_one(R, G, centre, ms, seq, text, how, history=None):
                         {pre: 1}.get(x) != 1 or {x: 1}.get(pre) != 1 or \
                         not (x == pre.name) or {pre.name: 1}.get(x) != 1:
                     probs.append('%s differs from an equal group built '
-                                 'before the failed call (%r / %r)'
+                                 'before the first call (%r / %r)'
                                  % (label, x.name, pre.name))
     except Exception as e:      # noqa
         probs = ['raised %s: %s' % (type(e).__name__, e)]
@@ -244,9 +334,10 @@ def _check_one(R, G, centre, ms, seq, text, how, history=None):
                         ident(centre, ms), how, text, '; '.join(probs)), wit)
 
 
-def run_spell(R, centre, k, first):
+def run_spell(R, centre, k, first, periph=None):
     from pgradd.GroupAdd.Group import Group
-    for ms in itertools.combinations_with_replacement(PERIPH, k):
+    for ms in itertools.combinations_with_replacement(
+            PERIPH if periph is None else periph, k):
         canon = None
         for seq in distinct_perms(ms):
             if first is not None and seq[0] != first:
@@ -274,12 +365,13 @@ def all_idents(kmax):
     return out
 
 
-def run_pairs(R, i, n, tier):
+def run_pairs(R, i, n, tier, ids=None, big=None):
     """'exactly when': distinct identities are unequal and do not find each
     other; all ordered pairs below PAIRMAX directly, and (every identity up to
-    KMAX) through one dictionary keyed by Group objects."""
+    KMAX) through one dictionary keyed by Group objects.  `ids` / `big`:
+    the same over another alphabet (fourth wave: letter case)."""
     from pgradd.GroupAdd.Group import Group
-    ids = all_idents(PAIRMAX[tier])
+    ids = all_idents(PAIRMAX[tier]) if ids is None else ids
     objs = [Group(None, c, list(ms)) for c, ms in ids]
     spelled = [Group.parse(None, c + ''.join('(%s)' % p for p in reversed(ms)))
                for c, ms in ids]
@@ -323,7 +415,7 @@ def run_pairs(R, i, n, tier):
                     dict(kind='pair', a=[ids[a][0], list(ids[a][1])],
                          b=[ids[b][0], list(ids[b][1])]))
     if i == 0:
-        big = all_idents(KMAX[tier])
+        big = all_idents(KMAX[tier]) if big is None else big
         d = {}
         for c, ms in big:
             R.evals += 1
@@ -342,12 +434,15 @@ SCHEME = ("patterns:\n-   center_name: 'C'\n    periph_name: 'C'\n"
           "    connectivity: 'fragment a{ C labeled c1 }'\n")
 
 
-def run_library(R, tier):
-    """Names from a file become keys; every spelling must find the entry."""
+def run_library(R, tier, ids=None, kind='library'):
+    """Names from a file become keys; every spelling must find the entry.
+    `ids` / `kind`: the same over another alphabet (fourth wave: letter
+    case), with its own witness kind."""
     import pgradd.ThermoChem   # noqa registers the property set
     from pgradd.GroupAdd.Library import GroupLibrary
     from pgradd.GroupAdd.Group import Group
-    ids = all_idents(KMAX[tier] if tier == 'quick' else 5)
+    if ids is None:
+        ids = all_idents(KMAX[tier] if tier == 'quick' else 5)
     with tempfile.TemporaryDirectory(prefix='pgv_c19_') as d:
         with open(os.path.join(d, 'scheme.yaml'), 'w') as f:
             f.write(SCHEME)
@@ -395,7 +490,7 @@ def run_library(R, tier):
             if probs:
                 R.violation('library:' + probs[0][:40], '%s written %r: %s' % (
                     ident(c, ms), spelled[n], '; '.join(probs)),
-                    dict(kind='library', centre=c, multiset=list(ms),
+                    dict(kind=kind, centre=c, multiset=list(ms),
                          text=spelled[n]))
         # the same file loaded a second time: a second scheme OBJECT; groups
         # bound to either must be interchangeable
@@ -420,11 +515,12 @@ def run_library(R, tier):
             R.outcomes['two-schemes:%s' % ('ok' if not bad else 'bad')] += 1
             if bad:
                 R.violation('library:two-scheme-objects', '%s: %s' % (ident(c, ms), bad),
-                            dict(kind='library', centre=c, multiset=list(ms), text='(two loads)'))
+                            dict(kind=kind, centre=c, multiset=list(ms), text='(two loads)'))
         if len(lib) != len(ids):
             R.violation('library:size', 'library has %d entries for %d '
                         'distinct identities' % (len(lib), len(ids)),
-                        dict(kind='library-size'))
+                        dict(kind='library-size' if kind == 'library'
+                             else kind))
 
 
 def run_large_counts(R):
@@ -475,19 +571,28 @@ def good_calls():
     return out
 
 
+def _perform_first(G, call):
+    if call['via'] == 'build-edit':
+        return W4.perform_edit(G, call)
+    return W3.perform(G, call)
+
+
 def _after_one(R, G, call, good, earlier=None):
     """One two-call history in this process: an equal group is built first
     (it must stay equal to what is built afterwards), then the call with
-    malformed input is made and whatever it does is swallowed, then the
+    malformed input is made (fourth wave: or a group is built and the object
+    that came back is edited) and whatever it does is swallowed, then the
     ordinary construction is judged."""
     c, ms, seq, text, how = good
     try:
         pre = G(None, c, sorted(ms))
     except Exception as e:      # noqa  (only after an earlier history)
         pre = e
-    outcome = W3.perform(G, call)
+    outcome = _perform_first(G, call)
     _check_one(R, G, c, ms, seq, text, how,
-               history=dict(fail=call, pre=pre, earlier=earlier))
+               history=dict(fail=call, pre=pre, earlier=earlier,
+                            family='after-edit' if call['via'] == 'build-edit'
+                            else 'after-failure'))
     return outcome
 
 
@@ -501,12 +606,14 @@ def _process_sane(G):
         return False
 
 
-def run_after(R, i, n):
+def run_after(R, i, n, family='after-failure'):
     """Runs in a process of its own (see run_after_isolated)."""
     from pgradd.GroupAdd.Group import Group
     goods = good_calls()
     taint = None
-    for call in W3.failing_calls()[i::n]:
+    calls = W3.failing_calls() if family == 'after-failure' else \
+        W4.edit_calls()
+    for call in calls[i::n]:
         for good in goods:
             R.evals += 1
             seen = R.extra['violating_cases']
@@ -518,7 +625,7 @@ def run_after(R, i, n):
                 taint = dict(fail=call, good=list(good))
                 R.notes.append('history family: plain constructions stopped '
                                'behaving after %r then %r' % (call, good))
-            if outcome != 'accepted':
+            if outcome.startswith('raised:') or outcome == 'edited':
                 R.nontrivial += 1
             R.outcomes['first call of a history: %s %s (unjudged)' % (
                 call['via'], outcome)] += 1
@@ -526,14 +633,14 @@ def run_after(R, i, n):
             goods[-1][0], goods[-1][1]))]), limit=1)
 
 
-def _after_child(i, n, outpath):
+def _after_child(i, n, outpath, family='after-failure'):
     R = Result()
-    run_after(R, i, n)
+    run_after(R, i, n, family)
     with open(outpath, 'w') as f:
         json.dump(R.pack(), f, default=str)
 
 
-def run_after_isolated(R, i, n):
+def run_after_isolated(R, i, n, family='after-failure'):
     """The history family tries to damage process-wide state; it gets an
     interpreter of its own so that the other families of this worker (whose
     witnesses are replayed alone) never run in a damaged process."""
@@ -541,8 +648,9 @@ def run_after_isolated(R, i, n):
         outp = os.path.join(d, 'out.json')
         p = subprocess.run(
             [sys.executable, '-c', 'import sys; from mc.props import c19; '
-             'c19._after_child(int(sys.argv[1]), int(sys.argv[2]), sys.argv[3])',
-             str(i), str(n), outp], cwd=VERIF, env=dict(os.environ),
+             'c19._after_child(int(sys.argv[1]), int(sys.argv[2]), sys.argv[3], '
+             'sys.argv[4])',
+             str(i), str(n), outp, family], cwd=VERIF, env=dict(os.environ),
             stdin=subprocess.DEVNULL, stdout=subprocess.PIPE,
             stderr=subprocess.STDOUT, timeout=3600)
         if p.returncode != 0 or not os.path.exists(outp):
@@ -711,6 +819,155 @@ def run_copies(R, ids, seeds=None, protocols=None):
              limit=1)
 
 
+# ------------------------------------------------- fourth wave: library histories
+
+class _LibEnv(object):
+    """Files of the library-history family (written once per shard / replay):
+    A.yaml, B1.yaml, B2.yaml, B3.yaml with non-canonical spellings, and the
+    B libraries loaded once as masters (every history gets fresh copies made
+    through the constructor)."""
+
+    def __init__(self, d):
+        import pgradd.ThermoChem   # noqa registers the property set
+        from pgradd.GroupAdd.Library import GroupLibrary
+        self.dir = d
+        with open(os.path.join(d, 'scheme.yaml'), 'w') as f:
+            f.write(SCHEME)
+        self.masters = {}
+        for name, entries in W4.lh_sources().items():
+            lines = ['groups:']
+            for c, ms, val in entries:
+                lines.append('  %r:\n    thermochem:\n      ND_H_ref: %r'
+                             % (W4.descending_text(c, ms), val))
+            with open(os.path.join(d, name + '.yaml'), 'w') as f:
+                f.write('\n'.join(lines) + '\n')
+            self.masters[name] = GroupLibrary.Load(
+                os.path.join(d, name + '.yaml'))
+
+    def fresh(self, name, route='ctor'):
+        from pgradd.GroupAdd.Library import GroupLibrary
+        from pgradd.GroupAdd.Group import Group
+        if route == 'load':
+            return GroupLibrary.Load(os.path.join(self.dir, name + '.yaml'))
+        m = self.masters[name]
+        return GroupLibrary(m.scheme, [
+            (Group(m.scheme, k.csg, list(k.psgs)),
+             dict((pn, pv.copy()) for pn, pv in ps.items()))
+            for k, ps in m.items()])
+
+
+def _lh_apply(env, lib, op):
+    """One operation of the history; what it returns or raises is not
+    judged here (the observation is made at the end of the history)."""
+    from pgradd.GroupAdd.Group import Group
+    try:
+        if op[0] in ('getitem', 'contains'):
+            c, ms = W4.lh_member(op[2])
+            g = Group(lib.scheme, c, list(ms))
+            key = g if op[1] == 'object' else W4._canonical_text(c, ms)
+            if op[0] == 'getitem':
+                lib[key]
+            else:
+                key in lib
+        elif op[0] == 'iterate':
+            list(lib.items())
+        elif op[0] == 'update':
+            lib.Update(env.fresh(op[1]))
+        elif op[0] == 'update-overwrite':
+            lib.Update(env.fresh(op[1]), overwrite=True)
+        else:
+            raise ValueError(op)
+    except ValueError:
+        raise
+    except Exception as e:      # noqa
+        return 'raised:' + type(e).__name__
+    return 'done'
+
+
+def _lh_observe(lib, model):
+    """Every identity of the universe under six forms of key against the
+    dictionary model."""
+    from pgradd.GroupAdd.Group import Group
+    probs = []
+    for n, c, ms, role, val in W4.lh_universe():
+        want = model.get(W4.lh_ident(c, ms))
+        name = W4._canonical_text(c, ms)
+        respelt = Group.parse(None, W4.descending_text(c, ms))
+        keys = [('scheme-bound object', Group(lib.scheme, c, list(ms))),
+                ('re-spelt object', respelt),
+                ('canonical name', name),
+                ('name of the re-spelt object', respelt.name)] + [
+            ('canonical name held as %s' % kind, make(name))
+            for kind, make in W3.EXTRA_STR_KINDS]
+        first = None
+        for label, key in keys:
+            try:
+                ps = lib[key]
+                inside = key in lib
+                got = lib.get(key)
+                if want is None:
+                    if inside or ps or got:
+                        probs.append('an identity the library does not hold '
+                                     'is found by its %s' % label)
+                    continue
+                if not ('thermochem' in ps and
+                        ps['thermochem'].ND_H_ref == want):
+                    probs.append('lib[%s] misses or returns another entry'
+                                 % label)
+                elif not inside:
+                    probs.append('%s not in lib' % label)
+                elif got is not ps:
+                    probs.append('lib.get(%s) is not lib[%s]' % (label, label))
+                elif first is not None and ps is not first:
+                    probs.append('lib[%s] is not the entry lib[%s] is'
+                                 % (label, keys[0][0]))
+                if first is None:
+                    first = ps
+            except Exception as e:      # noqa
+                probs.append('look-up by %s raised %s' % (label,
+                                                           type(e).__name__))
+    try:
+        held = sorted(str(k) for k in lib)
+        if len(lib) != len(model) or len(held) != len(model):
+            probs.append('library holds %d entries, the model %d'
+                         % (len(lib), len(model)))
+    except Exception as e:      # noqa
+        probs.append('iterating the library raised %s' % type(e).__name__)
+    return probs
+
+
+def _lh_one(R, env, route, ops):
+    R.evals += 1
+    if any(op[0].startswith('update') for op in ops):
+        R.nontrivial += 1
+    lib = env.fresh('A', route)
+    done = [_lh_apply(env, lib, op) for op in ops]
+    for op, out in zip(ops, done):
+        R.outcomes['library history step: %s %s (unjudged)' % (
+            op[0] + ((' ' + op[-1]) if op[0].startswith('update') else ''),
+            out)] += 1
+    probs = _lh_observe(lib, W4.lh_model(ops))
+    R.outcomes['lib-history-ok' if not probs else 'lib-history-bad'] += 1
+    if probs:
+        R.violation('library-history:' + probs[0][:60],
+                    'library A made by %s, then %s (steps: %s): %s' % (
+                        route, ops, done, '; '.join(probs[:6])),
+                    dict(kind='library-history', route=route, ops=ops))
+
+
+def run_library_histories(R, i, n, tier):
+    with tempfile.TemporaryDirectory(prefix='pgv_c19l_') as d:
+        env = _LibEnv(d)
+        hs = W4.lh_histories(W4.LH_LEN[tier])
+        for ops in hs[i::n]:
+            for route in W4.LH_ROUTES:
+                _lh_one(R, env, route, ops)
+        if hs[i::n]:
+            R.sample(dict(library_history=hs[i::n][-1],
+                          then='20 identities x 6 forms of key looked up'),
+                     limit=1)
+
+
 def run_shard(shard, tier):
     R = Result()
     if shard[0] == 'spell':
@@ -725,6 +982,19 @@ def run_shard(shard, tier):
         run_after_isolated(R, shard[1], shard[2])
     elif shard[0] == 'copies':
         run_copies(R, all_idents(KMAX[tier]))
+    elif shard[0] == 'spell-case':
+        run_spell(R, shard[1], shard[2], shard[3], periph=W4.CASE_PERIPH)
+    elif shard[0] == 'pairs-case':
+        run_pairs(R, shard[1], shard[2], tier,
+                  ids=W4.case_idents(W4.CASE_PAIRMAX),
+                  big=W4.case_idents(W4.KCASE[tier]))
+    elif shard[0] == 'library-case':
+        run_library(R, tier, ids=W4.case_idents(W4.CASE_PAIRMAX),
+                    kind='library-case')
+    elif shard[0] == 'after-edit':
+        run_after_isolated(R, shard[1], shard[2], 'after-edit')
+    elif shard[0] == 'library-history':
+        run_library_histories(R, shard[1], shard[2], tier)
     else:
         run_malformed(R)
     return R
@@ -747,7 +1017,7 @@ def replay(w):
                 {ga: 1}.get(sb) is not None or {sb: 1}.get(ga) is not None
         return dict(violates=bool(bad), detail='%r vs %r: eq=%s hash_eq=%s' % (
             ga, gb, ga == gb, hash(ga) == hash(gb)))
-    elif w['kind'] == 'after-failure':
+    elif w['kind'] in ('after-failure', 'after-edit'):
         # the whole history, in this fresh process: equal group, failed call,
         # ordinary construction
         if w.get('earlier'):
@@ -762,6 +1032,12 @@ def replay(w):
                    seeds=[w['reader_seed']] if w.get('reader_seed') else [],
                    protocols=[w['proto']] if w.get('proto') is not None
                    else PROTOCOLS)
+    elif w['kind'] == 'library-case':
+        run_library(R, 'quick', ids=W4.case_idents(W4.CASE_PAIRMAX),
+                    kind='library-case')
+    elif w['kind'] == 'library-history':
+        with tempfile.TemporaryDirectory(prefix='pgv_c19l_') as d:
+            _lh_one(R, _LibEnv(d), w['route'], [list(op) for op in w['ops']])
     else:
         run_library(R, 'quick')
     return dict(violates=bool(R.violations),
@@ -785,11 +1061,26 @@ MANIFEST = dict(
          'Every identity is copied, deep-copied, pickled (3 protocols) and '
          'restored in two other interpreter processes with different '
          'PYTHONHASHSEED, and judged there against fresh groups, names, a '
-         'restored dict and a restored GroupLibrary. Exhaustive inside the '
+         'restored dict and a restored GroupLibrary. A second alphabet of '
+         'names that differ only in letter case (C/c, CO/Co/cO/co, H/h; '
+         'centres C, c, CO, Co) goes through the spelling enumeration (<= 3 '
+         'quick / <= 4 thorough peripherals), the pair comparison and the '
+         'library file (<= 2 peripherals). Every (build a small group by '
+         'one of 4 routes, apply one of 10 edits to the object that came '
+         'back, ordinary construction) history is run in one process and '
+         'the last group judged. Every sequence of <= 3 (quick) / <= 4 '
+         '(thorough) operations from a 12-letter alphabet (look-ups by '
+         'object and by name, `in`, iteration, Update with three other '
+         'libraries, refused and overwriting Update) is applied to one '
+         'library object made by Load and by the constructor, after which '
+         'all 20 identities of its universe are looked up under 6 forms of '
+         'key and compared with a dictionary model. Exhaustive inside the '
          'bound.',
     note='Names outside the alphabet and more than 6 peripherals are not '
          'covered; malformed names are enumerated but not judged (statement '
-         'silent); histories longer than two calls, str subclasses that '
-         'override comparison, and copies by other serialisers are not '
-         'covered.',
+         'silent); construction histories longer than two calls, library '
+         'histories longer than 3 / 4 operations or with data other than '
+         'one number per group, edits of a group that is a library key, '
+         'str subclasses that override comparison, and copies by other '
+         'serialisers are not covered.',
     ref='5/C19')
